@@ -62,7 +62,7 @@ for t in "${TARGETS[@]}"; do
   echo "$t: exit=$code executed=${execs:-?} cov=${cov:-?} corpus=$(ls "$HERE/run/$t/corpus" | wc -l) artifacts=$(ls "$HERE/run/$t/artifacts" | wc -l)"
   for a in "$HERE/run/$t/artifacts/"*; do
     [ -f "$a" ] || continue
-    case "$(basename "$a")" in leak-*) continue ;; esac
+    case "$(basename "$a")" in leak-*|slow-unit-*) continue ;; esac
     replay="$HERE/run/$t/$(basename "$a").replay.json"
     if ! python3 - "$a" "$lang" "$replay" <<'EOF'
 import json, sys
